@@ -4,6 +4,7 @@ package harness
 
 import (
 	"bytes"
+	"errors"
 	"testing"
 
 	"github.com/pion/rtp"
@@ -18,6 +19,11 @@ func checkC01(r *run, m *PacketModel) (CaseInfo, error) {
 	m.classify(&ci)
 
 	p, err := m.packet()
+	if errors.Is(err, errAppbitsNotLegacy) {
+		ci.class("appbits-profile-not-legacy")
+
+		return ci, nil
+	}
 	if err != nil {
 		return ci, failf("model not constructible through the public API: %v", err)
 	}
